@@ -420,6 +420,10 @@ def nontrivial_fn(s, o):
     return s["n"] > 0 or s["extra"] > 0
 
 
+def prebuild():
+    pass   # the implementation side is the squid binary built by vlib.lab
+
+
 def run(res, tier):
     os.environ.setdefault("VERIF_STALL", "300")   # a 1 MB case may take the model runner > 30 s on a loaded machine
     soft, hard = resource.getrlimit(resource.RLIMIT_STACK)
